@@ -3,8 +3,8 @@ CONSTANTS
  Mans = {"m1", "m2"}
  TagOrder <- MCTagOrder
  Procs = {"p1"}
- Confs <- LayFullName
- MaxOps = 2
+ Confs <- OldDup
+ MaxOps = 1
  OpTags = {"t1", "t2"}
  OpMans = {"m1", "m2"}
  OpKinds <- AllKinds
